@@ -241,6 +241,15 @@ def decodeExtensionRequest (values : Bytes) : Option (List Ext) :=
   | some (.cons 0 17 [.cons 0 16 exts]) => exts.mapM decodeExt
   | _ => none
 
+/-- the extensions of every value of an extensionRequest attribute (SET OF SEQUENCE OF Extension) -/
+def decodeExtensionRequestAll (values : Bytes) : Option (List Ext) :=
+  match decodeAll values with
+  | some (.cons 0 17 vals) =>
+    (vals.mapM (fun (v : Asn1) => match v with
+      | .cons 0 16 exts => exts.mapM decodeExt
+      | _ => none)).map List.flatten
+  | _ => none
+
 /-! ### RFC 5280 §5 -/
 
 structure RevokedEntry where
